@@ -76,6 +76,8 @@ var trList = []trFunc{
 	{"CodeCfg", "cfg", "InitBlacklist", "InitBlacklist", false, true, nil, nil, nil, ""},
 	{"CodeCfg", "cfg", "InitRewrite", "InitRewrite", false, true, nil, nil, nil, ""},
 	{"CodeReadAgg", "imperatives", "readAddAgg", "readAddAgg", false, true, []string{"param:s"}, nil, []string{"Crng.CodeSpecAgg.T1", "Crng.CodeSpecAgg.T2"}, "(s.toks.length + 2)"},
+	{"CodeReadSmall", "imperatives", "readAddBlack", "readAddBlack", false, true, []string{"param:s"}, nil, nil, ""},
+	{"CodeReadSmall", "imperatives", "readAddRewriter", "readAddRewriter", false, true, []string{"param:s"}, nil, nil, ""},
 	{"CodeReadDest", "imperatives", "readDestination", "readDestination", true, true, []string{"param:s"}, nil, nil, "(s.toks.length + 2)"},
 }
 
@@ -92,7 +94,7 @@ var leanTypes = map[string]string{
 	"*Destination": "Destination", "*baseRoute": "baseRoute", "*ConsistentHasher": "ConsistentHasher", "*ConsistentHashing": "ConsistentHashing", "*Aggregator": "Aggregator", "*keepSafe": "keepSafe", "RW": "RW",
 	"time.Duration": "Int", "matcher.Matcher": "MatcherArgs", "GrafanaNetConfig": "GrafanaNetConfig",
 	"*regexp.Regexp": "Option RegexpI", "Config": "Config",
-	"*toki.Scanner": "Scanner", "table.Interface": "TableI", "*destination.Destination": "DestP",
+	"*toki.Scanner": "Scanner", "*toki.Result": "TokV", "table.Interface": "TableI", "*destination.Destination": "DestP",
 	"route.Route": "RouteI", "*matcher.Matcher": "MatcherI", "*aggregator.Aggregator": "AggregatorI", "rewriter.RW": "RewriterI",
 }
 
